@@ -79,7 +79,7 @@ CHECKS = [
           "(16 eps max^2 for quadratic quantities).",
   "technique": "exhaustive enumeration of a finite value grid and configuration space on the real code against an exact formula model"},
  {"property_id": "C18",
-  "text": "Exhaustive enumeration on the real functions: every N below 2^20 (quick) / 2^23 (thorough), N in {s-1,s,s+1} around "
+  "text": "Exhaustive enumeration on the real functions: every N below 2^20 (quick) / 2^23 (thorough), N in {s-3..s+3} and the midpoint to the next smooth number around "
           "7-smooth s below 2^62, and fast_len on every signal length 0..200 of every class; each result compared with an "
           "independently generated sorted list of all 7-smooth numbers. Complete within the stated bounds, silent outside them.",
   "note": "Trusts the nested-multiplication generator of the smooth list (self-checked against trial division in setup) and Python big-int arithmetic.",
